@@ -52,10 +52,13 @@ type machine struct {
 	mu       sync.Mutex
 	withheld []*api.Message
 	slept    bool
+	late     int
+	// a late message while other peers are connected (the core event handler is subscribed)
+	lateWithOthers bool
 }
 
 func (m *machine) logf(format string, a ...any) { m.hist = append(m.hist, fmt.Sprintf(format, a...)) }
-func (m *machine) history() string               { return "\n history:\n  " + strings.Join(m.hist, "\n  ") }
+func (m *machine) history() string              { return "\n history:\n  " + strings.Join(m.hist, "\n  ") }
 
 func (m *machine) live(t *rapid.T, label string) int {
 	var idx []int
@@ -385,6 +388,67 @@ func (m *machine) disconnect(t *rapid.T) {
 	m.othersUntouchedAndServed(t, victim, before, how)
 }
 
+// lateResponse: a message of a removed peer that was already read from the socket is handed to the
+// reader of its connection after the removal. Only messages that ask for no answer are used (the
+// discovery reply the stack asked for after connecting, a notification, a result): whatever the
+// stack makes of them, it has nothing to write to the removed connection and the other peers keep
+// their state.
+func (m *machine) lateResponse(t *rapid.T) {
+	if len(m.watches) == 0 {
+		t.Skip("no removed connection")
+	}
+	wt := m.watches[rapid.IntRange(0, len(m.watches)-1).Draw(t, "removed")]
+	p := wt.peer
+	alive := false
+	for _, q := range m.w.Peers {
+		alive = alive || !q.Gone
+	}
+	before := map[int]snap{}
+	for pi := range m.w.Peers {
+		before[pi] = m.snapshot(pi)
+	}
+	kind := rapid.SampledFrom([]string{"discovery-reply", "discovery-reply", "discovery-notify", "usecase-reply", "result"}).Draw(t, "kind")
+	var d model.DatagramType
+	switch kind {
+	case "discovery-reply":
+		cmd := model.CmdType{NodeManagementDetailedDiscoveryData: p.DiscoveryData(world.WithDeviceInfo(regs.PeerEntities()), nil)}
+		d = p.Msg(model.CmdClassifierTypeReply, p.NM(), world.LocalNM(), false, p.DiscoveryRef, cmd)
+	case "discovery-notify":
+		added := model.NetworkManagementStateChangeTypeAdded
+		ent := world.EntSpec{Addr: []uint{5}, Type: model.EntityTypeTypeEV, Feats: []world.FeatSpec{{ID: 1, Type: model.FeatureTypeTypeMeasurement, Role: model.RoleTypeClient}}}
+		cmd := model.CmdType{Function: ptr(model.FunctionTypeNodeManagementDetailedDiscoveryData), Filter: []model.FilterType{*model.NewFilterTypePartial()},
+			NodeManagementDetailedDiscoveryData: p.DiscoveryData([]world.EntSpec{ent}, &added)}
+		d = p.Msg(model.CmdClassifierTypeNotify, p.NM(), world.LocalNM(), false, nil, cmd)
+	case "usecase-reply":
+		cmd := model.CmdType{NodeManagementUseCaseData: &model.NodeManagementUseCaseDataType{}}
+		d = p.Msg(model.CmdClassifierTypeReply, p.NM(), world.LocalNM(), false, p.DiscoveryRef, cmd)
+	case "result":
+		cmd := model.CmdType{ResultData: &model.ResultDataType{ErrorNumber: ptr(model.ErrorNumberType(0))}}
+		d = p.Msg(model.CmdClassifierTypeResult, p.NM(), world.LocalNM(), false, p.DiscoveryRef, cmd)
+	}
+	p.Send(d)
+	m.w.Sync()
+	m.w.Events.Drain()
+	m.logf("late %s of removed peer%d handed to its reader (other peers connected: %v)", kind, p.Idx+1, alive)
+	m.ops = append(m.ops, "late-"+kind)
+	m.late++
+	if alive {
+		m.lateWithOthers = true
+	}
+	m.checkWatches(t, "a late "+kind+" of the removed peer")
+	if m.w.Local.RemoteDeviceForSki(p.Ski) != nil {
+		world.Fail(t, "C10/removed-device-state-left/still-resolvable", "after a late %s the removed peer%d can be resolved by SKI again%s", kind, p.Idx+1, m.history())
+	}
+	for pi, q := range m.w.Peers {
+		if q.Gone {
+			continue
+		}
+		if after := m.snapshot(pi); !reflect.DeepEqual(before[pi], after) {
+			world.Fail(t, "C10/other-peer-lost-state/late-message/registry", "a late %s of removed peer%d changed the state of peer%d\n before: %+v\n after:  %+v%s", kind, p.Idx+1, pi+1, before[pi], after, m.history())
+		}
+	}
+}
+
 func (m *machine) entityRemoved(t *rapid.T) {
 	victim := m.live(t, "victim")
 	if m.ent2Gone[victim] {
@@ -404,6 +468,16 @@ func (m *machine) entityRemoved(t *rapid.T) {
 	e.Feats = nil
 	cmd := model.CmdType{Function: ptr(model.FunctionTypeNodeManagementDetailedDiscoveryData), Filter: []model.FilterType{*model.NewFilterTypePartial()},
 		NodeManagementDetailedDiscoveryData: p.DiscoveryData([]world.EntSpec{e}, &removed)}
+	// field devices leave the device part of the entity address out (it is named in deviceInformation)
+	omitDevice := rapid.Bool().Draw(t, "entityAddressWithoutDevice")
+	if omitDevice {
+		for i := range cmd.NodeManagementDetailedDiscoveryData.EntityInformation {
+			if d := cmd.NodeManagementDetailedDiscoveryData.EntityInformation[i].Description; d != nil && d.EntityAddress != nil {
+				d.EntityAddress.Device = nil
+			}
+		}
+		world.Label("entity-removed/address-without-device")
+	}
 	p.Send(p.Msg(model.CmdClassifierTypeNotify, p.NM(), world.LocalNM(), false, nil, cmd))
 	m.w.Sync()
 	p.Cap.Drain()
@@ -478,6 +552,13 @@ func TestTeardown(t *testing.T) {
 	rapid.Check(t, world.Prop(func(t *rapid.T) {
 		m := &machine{w: regs.New(3), pending: map[int]int{}, ent2Gone: map[int]bool{}}
 		defer m.w.Teardown()
+		// most peers answer what the stack asked them after their announcement
+		for i, p := range m.w.Peers {
+			if rapid.IntRange(0, 3).Draw(t, fmt.Sprintf("peer%d.answersCoreRequests", i+1)) != 0 {
+				p.AnswerCoreRequests()
+				p.Cap.Drain()
+			}
+		}
 		// the LoadControl server asks the application, which never answers
 		srv := m.w.Servers[1].F
 		srv.SetWriteApprovalTimeout(approvalTimeout)
@@ -487,16 +568,17 @@ func TestTeardown(t *testing.T) {
 			m.mu.Unlock()
 		})
 		t.Repeat(map[string]func(*rapid.T){
-			"subscribe":     m.subscribe,
-			"subscribe2":    m.subscribe,
-			"bind":          m.bind,
-			"bind2":         m.bind,
-			"localClient":   m.localClientOp,
-			"pendingWrite":  m.pendingWrite,
-			"dataChange":    m.dataChange,
-			"disconnect":    m.disconnect,
-			"entityRemoved": m.entityRemoved,
+			"subscribe":         m.subscribe,
+			"subscribe2":        m.subscribe,
+			"bind":              m.bind,
+			"bind2":             m.bind,
+			"localClient":       m.localClientOp,
+			"pendingWrite":      m.pendingWrite,
+			"dataChange":        m.dataChange,
+			"disconnect":        m.disconnect,
+			"entityRemoved":     m.entityRemoved,
 			"entityReannounced": m.entityReannounced,
+			"lateResponse":      m.lateResponse,
 		})
 		// let every approval timer expire, then change data once more: the removed connections
 		// must have stayed silent
@@ -524,13 +606,19 @@ func TestTeardown(t *testing.T) {
 		m.w.Sync()
 		m.checkWatches(t, "the approval time-out and further data changes")
 		nt := m.shared && m.removals > 0
-		world.Record(world.Hash(m.ops), nt, fmt.Sprintf("removals/%d", m.removals))
+		labels := []string{fmt.Sprintf("removals/%d", m.removals)}
+		if m.late > 0 {
+			labels = append(labels, "late-message-of-removed-peer")
+		}
+		if m.lateWithOthers {
+			labels = append(labels, "late-message-while-others-connected")
+		}
+		world.Record(world.Hash(m.ops), nt, labels...)
 		if nt && world.WantSample() {
 			world.Sample(map[string]any{"history": m.hist})
 		}
 	}))
 }
-
 
 // TestTeardownStress: real goroutines. While one connection is removed (its peer holds several
 // subscriptions and bindings, so the removal takes a while and publishes events), other peers
